@@ -263,7 +263,9 @@ func (fr *Frame) enterLoop(li *loopInfo, st *State) *State {
 			fr.oblige(lname+".inv.init", k+1, "", inv.Tags, st, g, "loop invariant holds on entry: "+inv.Text, pos)
 		}
 	}
+	myPre := fr.loopPre
 	ms := fr.dryRunLoop(li, st)
+	fr.loopPre = myPre // nested loops entered during the dry run have overwritten it
 	var locs []modLoc
 	if hasMod {
 		locs = fr.specEnv(st).evalModLocs(mods)
